@@ -2556,6 +2556,10 @@ impl CommandParser {
         while i < frames.len() {
             let score = Self::extract_string(&frames[i])?.parse::<f64>()
                 .map_err(|_| FerrousError::Command(CommandError::InvalidFloatValue))?;
+            // NaN is not a score: it cannot be ordered and would corrupt the skip list
+            if score.is_nan() {
+                return Err(FerrousError::Command(CommandError::InvalidFloatValue));
+            }
             let member = Self::extract_bytes(&frames[i + 1])?;
             score_members.push((score, member));
             i += 2;
@@ -2689,6 +2693,9 @@ impl CommandParser {
         }
         let increment = Self::extract_string(&frames[2])?.parse::<f64>()
             .map_err(|_| FerrousError::Command(CommandError::InvalidFloatValue))?;
+        if increment.is_nan() {
+            return Err(FerrousError::Command(CommandError::InvalidFloatValue));
+        }
         Ok(SortedSetCommand::ZIncrBy {
             key: Self::extract_bytes(&frames[1])?,
             increment,
